@@ -294,6 +294,10 @@ def run(ctx) -> None:
     ctx.rule("C07.R13-stored-description-is-never-absent", "the writers of conf/flowir_instance.yaml and conf/manifest.yaml never remove the file they are "
              "about to replace: while it is absent (a fault, or simply another load during the window) a reload silently falls back to the package "
              "and every loop iteration instantiated so far is gone (the C14 write-discipline analysis re-used)")
+    ctx.rule("C07.R14-flattened-components-keep-their-own-layers", "the stored instance folds the selected platform into 'default'; the variables that "
+             "FlowIRConcrete.instance() stores for a component come from get_component_variables with every COMPONENT-level layer on (the "
+             "component's own variables and those of its override for the platform) - only the global/stage scope layers, which instance() folds "
+             "separately, may be switched off")
     ctx.rule("C07.R7-flattening-keeps-scope-precedence", "for every way a variable name can be defined in the default/platform x "
              "global/stage scopes, the single-platform description written by instance() lets the same scope win as "
              "get_component_variables does on the live multi-platform description")
@@ -572,3 +576,29 @@ def run(ctx) -> None:
             n13 += 1
     ctx.functions_analysed |= sub_ctx.functions_analysed
     ctx.floor("C07.R13-stored-description-is-never-absent", n13, 3, "write-discipline obligations of the two conf/ writers re-used from the C14 analysis")
+
+    # ---------------- R14: the flattened component keeps its own layers ---------------------------------
+    flm = ctx.repo.module("python/experiment/model/frontends/flowir.py")
+    gcv = flm.func("FlowIRConcrete.get_component_variables")
+    inst_fn = flm.func("FlowIRConcrete.instance")
+    ctx.analysed(gcv)
+    comp_locals = set(match.locals_where(gcv, lambda v: isinstance(v, ast.Call) and last_attr(v) == "get_component"))
+    gparams = {a_.arg for a_ in gcv.args.args + gcv.args.kwonlyargs}
+    comp_level: Set[str] = set()
+    for iff in [x for x in source.walk_own(gcv) if isinstance(x, ast.If)]:
+        guards = {x.id for x in ast.walk(iff.test) if isinstance(x, ast.Name) and x.id in gparams}
+        from_comp = any(isinstance(c_, ast.Call) and last_attr(c_) == "update" and any(
+            isinstance(y, ast.Name) and y.id in comp_locals for a_ in c_.args for y in ast.walk(a_)) for st_ in iff.body for c_ in ast.walk(st_))
+        if guards and from_comp:
+            comp_level |= guards
+    calls14 = [c_ for c_ in source.calls_in(inst_fn, include_nested=False) if last_attr(c_) == "get_component_variables"]
+    ctx.require(bool(calls14), "anchor missing: the call of get_component_variables in FlowIRConcrete.instance")
+    for c_ in calls14:
+        off = [k.arg for k in c_.keywords if k.arg in comp_level and isinstance(k.value, ast.Constant) and not k.value.value]
+        ctx.ob("C07.R14-flattened-components-keep-their-own-layers", c_, not off,
+               "instance() stores a component's variables with every component-level layer on (switchable: %s)" % (sorted(comp_level) or "none") if not off else
+               "instance() computes the variables it stores for a component with %s=False: the variables of the component's override for the selected "
+               "platform are not written into the flattened component, and a reload that does not name the platform (experimentFromInstance, "
+               "ewrap.py) resolves the component with the default platform's values ('hi safe' instead of 'hi fast'); that reload stores the "
+               "description again without the override block, so the value is gone from the files" % off[0],
+               construct="instance(): get_component_variables keeps the component-level layers")
